@@ -145,6 +145,8 @@ pub(crate) mod gen {
         // "_1p": one prime, one level.  "_2p1": two primes, ONE level (special-prime-for-encryption flag: key level = data level).
         // unsuffixed: three primes, full chain of 3 levels (key {97,113,193}, first {97,113}, last {97}).
         PSet { name: "bfv_n2_1p",     scheme: SchemeType::BFV,  n: 2, q: &[97],            t: 3,   expand: true, special: false },
+        PSet { name: "bgv_n2_1p",     scheme: SchemeType::BGV,  n: 2, q: &[97],            t: 17,  expand: true, special: false },
+        PSet { name: "ckks_n2_1p",    scheme: SchemeType::CKKS, n: 2, q: &[97],            t: 0,   expand: true, special: false },
         PSet { name: "bfv_n2_2p1",    scheme: SchemeType::BFV,  n: 2, q: &[97, 113],       t: 17,  expand: true, special: true },
         PSet { name: "bgv_n2_2p1",    scheme: SchemeType::BGV,  n: 2, q: &[97, 113],       t: 17,  expand: true, special: true },
         PSet { name: "ckks_n2_2p1",   scheme: SchemeType::CKKS, n: 2, q: &[97, 113],       t: 0,   expand: true, special: true },
@@ -154,6 +156,9 @@ pub(crate) mod gen {
         PSet { name: "bgv_n2",        scheme: SchemeType::BGV,  n: 2, q: &[97, 113, 193],  t: 17,  expand: true, special: false },
         PSet { name: "ckks_n2",       scheme: SchemeType::CKKS, n: 2, q: &[97, 113, 193],  t: 0,   expand: true, special: false },
         PSet { name: "bfv_n2_4p",     scheme: SchemeType::BFV,  n: 2, q: &[97, 113, 193, 241], t: 17, expand: true, special: false }, // 4 levels
+        PSet { name: "bfv_n2_bigt",   scheme: SchemeType::BFV,  n: 2, q: &[97, 113],       t: 1009, expand: false, special: true }, // t > q_0 and (Q mod t) >= q_0
+        // residue byte widths 1, 2 and 3 (97, 12289, 65537) for the byte-width packing of the serializers
+        PSet { name: "bfv_n2_bytes",  scheme: SchemeType::BFV,  n: 2, q: &[97, 12289, 65537], t: 17, expand: false, special: true },
         // N=4 (q = 1 mod 8), batching t = 17
         PSet { name: "bfv_n4_2p1",    scheme: SchemeType::BFV,  n: 4, q: &[97, 113],       t: 17,  expand: true, special: true },
         PSet { name: "bgv_n4_2p1",    scheme: SchemeType::BGV,  n: 4, q: &[97, 113],       t: 17,  expand: true, special: true },
@@ -243,21 +248,54 @@ mod proofs {
     }
 
     // @harness id=C13 tier=quick unwind=8 timeout=1800 fs=4096
-    // @desc for accepted parameters the chain built by the REAL HeContext::new is a doubly linked list of prefix moduli sets with strictly decreasing chain indices ending at 0, key/first/last ids consistent, and every level's precomputed constants equal their definitions (total modulus and bit count, floor(Q/t) and Q mod t in RNS form, (t+1)/2, CKKS thresholds and 2^64 increments)
-    // @bounds ground check (no symbolic input) of the regenerated literal chains: BFV {97,113,193} t=17 (3 levels), CKKS {97,113,193} (3 levels), BGV {97,113} special-prime flag (2 levels, key level = first level), BFV {97,113,193,241} (4 levels)
+    // @desc for accepted parameters the chain built by the REAL HeContext::new is a doubly linked list of prefix moduli sets with strictly decreasing chain indices ending at 0, key/first/last ids consistent, and every level's precomputed constants equal their definitions (total modulus and bit count, floor(Q/t) and Q mod t in RNS form, (t+1)/2)
+    // @bounds ground check (no symbolic input) of the regenerated literal chains: BGV {97,113} t=17 with the special-prime flag (2 levels, key level = first level) and BFV {97,113} t=1009 (plain modulus above the first prime, Q mod t >= q_0)
     // @funcs HeContext::new, HeContext::validate, HeContext::create_next_context_data (through their regenerated literal output)
-    // @stubs HeContext::get_context_data -> linear search over the literal chain; alloc::sync::Arc::drop_slow -> no-op
+    // @stubs alloc::sync::Arc::drop_slow -> no-op
     #[kani::proof]
     #[kani::stub(alloc::sync::Arc::drop_slow, crate::verif_v::arc_drop_slow_noop)]
     fn c13_chain_wellformed_ground() {
+        let c: bool = kani::any();
+        if c { let ctx = lits::ctx_bgv_n2_2p1(); check_chain(&ctx, &[97, 113], 17, 2, 2, true); std::mem::forget(ctx); }
+        else { let ctx = lits::ctx_bfv_n2_bigt(); check_chain(&ctx, &[97, 113], 1009, 2, 1, true); std::mem::forget(ctx); }
+        kani::cover!(true);
+    }
+
+    // @harness id=C13 tier=thorough unwind=8 timeout=3600 fs=4096
+    // @desc as c13_chain_wellformed_ground for longer chains: BFV and CKKS {97,113,193} (3 levels, separate key level) and BFV {97,113,193,241} (4 levels)
+    // @bounds ground check of the regenerated literal chains (3 and 4 levels; CKKS thresholds and 2^64 increments)
+    // @funcs HeContext::new, HeContext::validate, HeContext::create_next_context_data (through their regenerated literal output)
+    // @stubs alloc::sync::Arc::drop_slow -> no-op
+    #[kani::proof]
+    #[kani::stub(alloc::sync::Arc::drop_slow, crate::verif_v::arc_drop_slow_noop)]
+    fn c13_chain_wellformed_ground_long() {
         let c: u8 = kani::any();
         match c {
             0 => { let ctx = lits::ctx_bfv_n2(); check_chain(&ctx, &[97, 113, 193], 17, 2, 3, false); std::mem::forget(ctx); }
             1 => { let ctx = lits::ctx_ckks_n2(); check_chain(&ctx, &[97, 113, 193], 0, 2, 3, false); std::mem::forget(ctx); }
-            2 => { let ctx = lits::ctx_bgv_n2_2p1(); check_chain(&ctx, &[97, 113], 17, 2, 2, true); std::mem::forget(ctx); }
             _ => { let ctx = lits::ctx_bfv_n2_4p(); check_chain(&ctx, &[97, 113, 193, 241], 17, 2, 4, false); std::mem::forget(ctx); }
         }
         kani::cover!(true);
+    }
+
+    // @harness id=C13 tier=quick unwind=8 timeout=1800 fs=4096
+    // @desc parameter identifiers distinguish parameter sets that differ ONLY in the scheme (BFV vs BGV with identical degree, moduli and plain modulus), at every level of the chain -- so a context of one scheme never resolves another scheme's level ids; ids of different levels of one chain are pairwise different and non-zero
+    // @bounds ground check on the regenerated literal chains BFV/BGV N=2, q={97,113}, t=17 (2 levels each)
+    // @funcs EncryptionParameters::compute_parms_id (through the ids stored by the real constructors)
+    // @stubs alloc::sync::Arc::drop_slow -> no-op
+    #[kani::proof]
+    #[kani::stub(alloc::sync::Arc::drop_slow, crate::verif_v::arc_drop_slow_noop)]
+    fn c13_parms_ids_distinguish_schemes() {
+        let a = lits::ctx_bfv_n2_2p1();
+        let ida = [*chain_at(0).parms_id(), *chain_at(1).parms_id()];
+        let b = lits::ctx_bgv_n2_2p1();
+        let idb = [*chain_at(0).parms_id(), *chain_at(1).parms_id()];
+        let ne = |x: &ParmsID, y: &ParmsID| x[0] != y[0] || x[1] != y[1] || x[2] != y[2] || x[3] != y[3];
+        kani::cover!(true);
+        assert!(ne(&ida[0], &idb[0]) && ne(&ida[1], &idb[1]) && ne(&ida[0], &idb[1]) && ne(&ida[1], &idb[0]));
+        assert!(ne(&ida[0], &ida[1]) && ne(&idb[0], &idb[1]));
+        assert!(ne(&ida[0], &PARMS_ID_ZERO) && ne(&ida[1], &PARMS_ID_ZERO) && ne(&idb[0], &PARMS_ID_ZERO));
+        std::mem::forget(a); std::mem::forget(b);
     }
 
     #[cfg(test)] include!("/verif/.build/playback/context_v.rs");
